@@ -23,7 +23,8 @@ VERIF = os.path.dirname(os.path.dirname(os.path.abspath(__file__)))
 REPO = os.environ.get("VERIF_REPO", "/repo")
 
 
-def one(patch, prop, budget, workers):
+def one(patch, prop, budget, workers, label=None):
+    label = label or os.path.basename(patch)
     tmp = tempfile.mkdtemp(prefix="verif-mut-")
     t0 = time.time()
     try:
@@ -32,13 +33,13 @@ def one(patch, prop, budget, workers):
         if r.returncode != 0:
             r = subprocess.run(["patch", "-p1", "-d", tmp, "-i", patch], capture_output=True, text=True)
             if r.returncode != 0:
-                return {"patch": os.path.basename(patch), "property": prop, "result": "PATCH_FAILED", "detail": (r.stdout + r.stderr)[-300:]}
+                return {"patch": label, "property": prop, "result": "PATCH_FAILED", "detail": (r.stdout + r.stderr)[-300:]}
         env = dict(os.environ, VERIF_REPO=tmp, VERIF_WORKERS=str(workers), VERIF_BUDGET_S=str(budget), VERIF_REPLAY_DIR=tmp, VERIF_EVIDENCE_DIR=tmp)
         p = subprocess.run(["timeout", "-k", "5", str(int(budget * 3 + 120)), os.path.join(VERIF, "check"), prop, "--tier", "quick"],
                            capture_output=True, text=True, env=env, cwd=VERIF)
         out = p.stdout
         m = re.search(r"invariant=(\S+) key=(\S+)", out)
-        res = {"patch": os.path.basename(patch), "property": prop, "exit": p.returncode,
+        res = {"patch": label, "property": prop, "exit": p.returncode,
                "result": "CAUGHT" if p.returncode == 1 else ("SURVIVED" if p.returncode == 0 else "ERROR"),
                "invariant": m.group(1) if m else None, "key": m.group(2) if m else None, "wall_s": round(time.time() - t0, 1)}
         if p.returncode not in (0, 1):
@@ -62,17 +63,17 @@ def main():
             pf = os.path.join(d, "patch.diff")
             mf = os.path.join(d, "meta.json")
             if os.path.exists(pf) and os.path.exists(mf):
-                items.append((pf, json.load(open(mf))["property"]))
+                items.append((pf, json.load(open(mf))["property"], os.path.basename(d)))
     else:
         for pf in sorted(glob.glob(os.path.join(VERIF, "mutants", "*.patch"))):
             if "EQUIVALENT" in pf:
                 continue
-            items.append((pf, os.path.basename(pf).split("-")[0]))
+            items.append((pf, os.path.basename(pf).split("-")[0], None))
     if a.only:
         items = [it for it in items if it[1] in a.only.split(",")]
     results = []
     with cf.ThreadPoolExecutor(max_workers=a.jobs) as ex:
-        futs = [ex.submit(one, pf, prop, a.budget, a.workers) for pf, prop in items]
+        futs = [ex.submit(one, pf, prop, a.budget, a.workers, label) for pf, prop, label in items]
         for f in cf.as_completed(futs):
             r = f.result()
             results.append(r)
